@@ -984,6 +984,32 @@ struct Driver {
         Op op; op.name = "add_face_he"; op.a.push_back(1); op.a.push_back((long)k); for (long h : hes) op.a.push_back(h);
         exec(op);
     }
+    // a tetrahedron built from explicit halfedges, some of whose edges have a PARALLEL TWIN created before or after the
+    // edge the cell uses (add_edge(..., allowDuplicates=true)): lookups by vertex pair meet the twin first
+    void twin_tet() {
+        if (kind == "hex") return;
+        int v[4]; for (int& x : v) x = fresh_vertex();
+        static const int E[6][2] = {{0, 1}, {1, 2}, {2, 0}, {0, 3}, {1, 3}, {2, 3}};
+        int he[4][4];       // he[a][b] = halfedge a->b of the edge the cell uses
+        for (auto& e : E) {
+            int a = v[e[0]], b = v[e[1]];
+            bool dup = rng.chance(1, 2), twin_first = rng.chance(1, 2), rev = rng.chance(1, 3);
+            if (dup && twin_first) { if (!exec(mk("add_edge", {a, b, 1}))) return; }
+            if (!exec(mk("add_edge", {rev ? b : a, rev ? a : b, 1}))) return;
+            int id = nE() - 1;
+            he[e[0]][e[1]] = 2 * id + (rev ? 1 : 0); he[e[1]][e[0]] = 2 * id + (rev ? 0 : 1);
+            if (dup && !twin_first) { if (!exec(mk("add_edge", {a, b, 1}))) return; }
+        }
+        static const int F[4][3] = {{0, 1, 2}, {0, 3, 1}, {1, 3, 2}, {0, 2, 3}};
+        std::vector<long> hfs;
+        for (auto& f : F) {
+            Op op; op.name = "add_face_he"; op.a = {1, 3, he[f[0]][f[1]], he[f[1]][f[2]], he[f[2]][f[0]]};
+            if (!exec(op)) return;
+            hfs.push_back(2 * (nF() - 1));
+        }
+        Op op; op.name = "add_cell"; op.a = {(long)rng.below(2), 4, hfs[0], hfs[1], hfs[2], hfs[3]};
+        exec(op);
+    }
     void gen_mode() {
         int what = (int)rng.below(10);
         if (what < 2) exec(mk("enable_deferred", {(long)rng.below(2)}));
@@ -1009,6 +1035,7 @@ struct Driver {
         } else if (profile == "c17") {
             if (w < 30 || nent < 10) grow(); else if (w < 75) gen_swap(); else if (w < 85) gen_delete(); else if (w < 93) gen_mode(); else gen_prop();
         } else if (profile == "c09" || profile == "c10" || profile == "c05") {
+            if (profile == "c10" && kind == "poly" && w < 4 && nent < 60) twin_tet(); else
             if (w < 50 || nent < 10) grow(); else if (w < 72) gen_delete(); else if (w < 82) gen_swap(); else if (w < 95) gen_mode(); else gen_prop();
         } else if (profile == "c04") {
             if (w < 40 || nent < 10) grow(); else if (w < 75) gen_delete(); else if (w < 92) gen_mode(); else gen_prop();
